@@ -71,6 +71,22 @@ fn parsed_msgs(b: &[u8], ct: u8) -> (Value, usize) {
     }
 }
 
+/// an unrelated serialization into a buffer that is too small: fails after part of the value has been generated
+fn disturb() {
+    static XB: [u8; 9] = [0, 23, 0, 0, 0, 35, 0, 1, 7];
+    static RB: [u8; 32] = [0xee; 32];
+    let ch = TlsMessage::Handshake(TlsMessageHandshake::ClientHello(TlsClientHelloContents::new(0x0303, &RB, Some(&RB[..8]),
+        vec![TlsCipherSuiteID(0x1301), TlsCipherSuiteID(0x2f)], vec![TlsCompressionID(0)], Some(&XB))));
+    let rec = TlsPlaintext { hdr: TlsRecordHeader { record_type: TlsRecordType(22), version: TlsVersion(0x0303), len: 0 }, msg: vec![ch] };
+    for n in [0usize, 3, 16, 47, 60] {
+        let mut small = vec![0u8; n];
+        let _ = cookie_factory::gen(gen_tls_plaintext(&rec), &mut small[..]);
+    }
+    let exts = vec![TlsExtension::SNI(vec![(SNIType(0), &RB[..])]), TlsExtension::EllipticCurves(vec![NamedGroup(23), NamedGroup(29)])];
+    let mut small = [0u8; 7];
+    let _ = cookie_factory::gen(gen_tls_extensions(&exts), &mut small[..]);
+}
+
 /// ser <in.ndjson> <out.ndjson>
 pub fn cmd_ser(args: &[String]) -> i32 {
     let inp = BufReader::new(std::fs::File::open(&args[0]).expect("open"));
@@ -79,7 +95,7 @@ pub fn cmd_ser(args: &[String]) -> i32 {
         let c: Value = serde_json::from_str(&line.unwrap()).expect("json");
         let kind = c["kind"].as_str().unwrap_or("");
         let v = &c["v"];
-        let r = crate::observe::guarded(|| -> Value {
+        let run_once = || crate::observe::guarded(|| -> Value {
             match kind {
                 "hs" | "unsupported_msg" | "ccs_msg" => {
                     let wrapped = if kind == "hs" { json!({"t":"hs","m":v}) } else { v.clone() };
@@ -98,7 +114,13 @@ pub fn cmd_ser(args: &[String]) -> i32 {
                             };
                             // the handshake-level Serialize impl must agree with the message-level one
                             let direct = if let TlsMessage::Handshake(h) = &m { h.serialize().map(|x| json!(x)).unwrap_or(json!("error")) } else { json!(b) };
-                            json!({"ok": true, "bytes": b, "parsed": parsed, "consumed": consumed, "bytes2": b2, "direct": direct})
+                            // the gen_* functions write into any io::Write: an exactly sized slice takes the same bytes, a shorter one fails
+                            let mut exact = vec![0u8; b.len()];
+                            let exact_ok = match cookie_factory::gen(gen_tls_message(&m), &mut exact[..]) { Ok((_, n)) => n as usize == b.len() && exact == b, Err(_) => false };
+                            let short_err = if b.is_empty() { json!("BufferTooSmall") } else {
+                                let mut short = vec![0u8; b.len() - 1];
+                                match cookie_factory::gen(gen_tls_message(&m), &mut short[..]) { Ok(_) => json!("ok"), Err(e) => json!(generr(e).split('(').next().unwrap_or("")) } };
+                            json!({"ok": true, "bytes": b, "parsed": parsed, "consumed": consumed, "bytes2": b2, "direct": direct, "exact_ok": exact_ok, "short_err": short_err})
                         }
                     }
                 }
@@ -173,7 +195,14 @@ pub fn cmd_ser(args: &[String]) -> i32 {
                 _ => json!({"ok": false, "err": "unknown kind"}),
             }
         });
-        let v = match r { Ok(v) => v, Err(m) => json!({"ok": false, "err": format!("panic: {}", m)}) };
+        let r = run_once();
+        // serialization is a function of the value: an unrelated write that fails half-way (buffer too small) in between
+        // must not change what the same value serializes to
+        let _ = crate::observe::guarded(disturb);
+        let r2 = run_once();
+        let mut v = match r { Ok(v) => v, Err(m) => json!({"ok": false, "err": format!("panic: {}", m)}) };
+        let v2 = match r2 { Ok(v) => v, Err(m) => json!({"ok": false, "err": format!("panic: {}", m)}) };
+        v["again"] = if v2.get("bytes").is_some() { v2["bytes"].clone() } else { json!(v2["err"].as_str().unwrap_or("?")) };
         writeln!(out, "{}", json!({"id": c["id"], "kind": kind, "obs": v})).unwrap();
     }
     out.flush().unwrap();
